@@ -8,10 +8,11 @@
    * [nbufs] = len(bufs), [room] = len(bufs[i][offset:]) (the harness gives every buffer the
      same size).  For the GSO path the model assumes room >= 65535 (every produced segment
      fits); the non-GSO path tests it as the code does.
-   * Output buffers are observed as bufs[i][offset:offset+sizes[i]].  Every byte of that range
-     is written by the three copies of the loop body provided the reads the body makes of
-     [out] before writing lie inside it; the model starts from an all-zero [out] of the
-     segment's length (the harness zero-fills its buffers).
+   * Output buffers are observed as bufs[i][offset:offset+sizes[i]].  They are pooled and never
+     cleared in the device, so before the call they hold stale bytes: the harness pre-fills
+     buffer i (its whole capacity) with the pattern [stale gseed i] and the model starts from
+     the same bytes.  For well-formed input every byte of the observed range is overwritten
+     (proved: the theorems hold for every [gseed]).
    * A Go run-time panic (index/slice out of range, cap = len for the input) is the outcome
      [Panic]. *)
 From WG Require Import Base.Prelude Gen.Constants Offload.Bytes Offload.Checksum.
@@ -32,6 +33,11 @@ Definition u32 (x : N) : N := x mod 4294967296.
 Definition not16 (x : N) : N := 65535 - x.          (* ^x on uint16, x <= 65535 *)
 (* if cSum == 0 { cSum = 0xffff }: RFC 768 / the kernel's CSUM_MANGLED_0 *)
 Definition mangle0 (x : N) : N := if x =? 0 then 65535 else x.
+
+(* stale content of output buffer i at position j (relative to offset); never zero *)
+Definition stale_byte (gseed i j : N) : N := 1 + ((gseed + 7 * i + j * (j + 3)) mod 65521) mod 255.
+Definition stale (gseed i n : N) : list N :=
+  map (fun j => stale_byte gseed i (N.of_nat j)) (seq 0 (N.to_nat n)).
 
 Record vhdr := {
   v_flags : N; v_gsoType : N; v_hdrLen : N; v_gsoSize : N; v_csumStart : N; v_csumOffset : N }.
@@ -84,6 +90,7 @@ Section Split.
   Variable hdr : vhdr.           (* with hdrLen already recomputed by handleVirtioRead *)
   Variable nbufs : N.
   Variable isV6 : bool.
+  Variable gseed : N.            (* selects the stale content of the output buffers *)
 
   Let cs := v_csumStart hdr.
   Let hl := v_hdrLen hdr.
@@ -109,7 +116,7 @@ Section Split.
     let nextSegmentEnd := N.min (nextSegmentDataAt + gso) (len inp) in
     let segmentDataLen := nextSegmentEnd - nextSegmentDataAt in
     let totalLen := hl + segmentDataLen in
-    let out := zeros totalLen in
+    let out := stale gseed i totalLen in
     let out := copy_at out 0 (sub inp 0 iphLen) in
     let out :=
       if isV6 then set16 out 4 (u16 (totalLen - iphLen))
@@ -163,7 +170,7 @@ End Split.
 (* ------------------------------------------------------------------ *)
 
 (* everything after hdr.decode(in); in = in[virtioNetHdrLen:] *)
-Definition handle_hdr (hdr : vhdr) (inp : list N) (nbufs room : N) : outcome :=
+Definition handle_hdr (hdr : vhdr) (inp : list N) (nbufs room gseed : N) : outcome :=
     let gt := v_gsoType hdr in
     let cs := v_csumStart hdr in
     if gt =? VIRTIO_NET_HDR_GSO_NONE then
@@ -210,9 +217,9 @@ Definition handle_hdr (hdr : vhdr) (inp : list N) (nbufs room : N) : outcome :=
                 let hdr' := {| v_flags := v_flags hdr; v_gsoType := gt; v_hdrLen := hdrLen;
                                v_gsoSize := v_gsoSize hdr; v_csumStart := cs;
                                v_csumOffset := v_csumOffset hdr |} in
-                gso_split inp hdr' nbufs (ipVersion =? 6)
+                gso_split inp hdr' nbufs (ipVersion =? 6) gseed
         end.
 
-Definition handle_virtio_read (raw : list N) (nbufs room : N) : outcome :=
+Definition handle_virtio_read (raw : list N) (nbufs room gseed : N) : outcome :=
   if len raw <? tun_virtioNetHdrLen then Done 0 E_short_buffer []
-  else handle_hdr (decode raw) (sub raw tun_virtioNetHdrLen (len raw)) nbufs room.
+  else handle_hdr (decode raw) (sub raw tun_virtioNetHdrLen (len raw)) nbufs room gseed.
